@@ -1070,8 +1070,18 @@ fn visit_tables<'a>(t: &'a mut Table, f: &mut dyn FnMut(&mut Table)) {
 fn f18_explains(s: &State, start_text: &str) -> bool {
     let mut d = s.doc.clone();
     let mut positions: Vec<Option<usize>> = vec![];
-    visit_tables(d.as_table_mut(), &mut |t| positions.push(t.position()));
-    let has_positionless = positions.iter().any(|p| p.is_none());
+    // (the root and header-less implicit tables never carry a position and print no header of
+    // their own: only a table that prints a header can be displaced)
+    let mut displaceable = 0usize;
+    let mut first = true;
+    visit_tables(d.as_table_mut(), &mut |t| {
+        if !first && !t.is_implicit() && t.position().is_none() {
+            displaceable += 1;
+        }
+        first = false;
+        positions.push(t.position());
+    });
+    let has_positionless = displaceable > 0;
     let some: Vec<usize> = positions.iter().flatten().copied().collect();
     let monotone = some.windows(2).all(|w| w[0] <= w[1]);
     if !has_positionless || monotone {
